@@ -162,13 +162,46 @@ def _case(res, rng, ident):
     for p, ops in counts.items():
         for op, n in ops.items():
             base[p][op] = [(rng.choice(hq_m), rng.choice(hq_q)) for _ in range(n)]
+    # thin sites: catalogue sites with fewer qualifying reference reads than min_coverage (poorly covered
+    # loci) - low-quality reference reads piled on them must still count for nothing
+    thin = []
+    if rng.random() < 0.5:
+        ref_only = [p for p in sorted(base) if set(base[p]) == {"_"}]
+        for p in rng.sample(ref_only, min(len(ref_only), rng.choice([1, 2, 4]))):
+            keep = rng.choice([0, 0, 1, max(0, int(mincov) - 1)])
+            if keep:
+                base[p]["_"] = base[p]["_"][:keep]
+            else:
+                del base[p]
+            thin.append(p)
+    # a realigner-style table for the catalogued indels (supporting / non-supporting reads, total unrelated to
+    # the pile-up depth), plus weak spurious support for indels nobody carries
+    indel_table = None
+    if rng.random() < 0.35:
+        plain = {p: {op: len(v) for op, v in ops.items()} for p, ops in base.items()}
+        plain, indel_table = tables.split_indel_table(g, plain, rng, scale_choices=(1.0, 0.5, 2.0, 4.0))
+        for p in list(base):
+            for op in list(base[p]):
+                if op not in plain.get(p, {}):
+                    del base[p][op]
+        for (p, op) in sorted(indel_table):
+            if indel_table[p, op][1] == 0 and rng.random() < 0.5:
+                tot = max(4, sum(indel_table[p, op]))
+                y = max(int(mincov), int(tot * rng.choice([0.04, 0.08, 0.15, 0.3])))
+                indel_table[p, op] = [max(0, tot - y), y]
+            if rng.random() < 0.4 and p in base:  # sparse pile-up under a deep table
+                for op2 in base[p]:
+                    base[p][op2] = base[p][op2][: max(1, len(base[p][op2]) // rng.choice([3, 6]))]
+        if not indel_table:
+            indel_table = None
     # an allele whose one core variant is only seen in sub-threshold reads (must never be called)
     lowq_only = None
     fm = sorted(Mutation(*m) for m in g.mutations if g.is_functional(m))
     carried = set()
     for c in copies:
         carried |= tables.allele_variants(g, *c)
-    spare = [m for m in fm if m not in carried and not any(o.pos == m.pos for o in carried)]
+    spare = [m for m in fm if m not in carried and not any(o.pos == m.pos for o in carried)
+             and not (indel_table and (m.pos, m.op) in indel_table)]
     lq_m = [m for m in (0, 1, 5, 9, 19, 29, 39) if m < minmq]
     lq_q = [q for q in (0, 1, 6, 9, 15, 25) if q < minq]
 
@@ -185,6 +218,9 @@ def _case(res, rng, ident):
     extra = collections.defaultdict(dict)
     n_lq = 0
     sites = sorted(base) or sorted({p for p, _ in g.mutations})
+    for p in thin:
+        extra[p]["_"] = [lowq_pair() for _ in range(rng.choice([3, 10, 40]))]
+        n_lq += len(extra[p]["_"])
     for _ in range(rng.randint(5, 40)):
         p = rng.choice(sites)
         ops = ["_"] + [o for (pp, o) in g.mutations if pp == p]
@@ -209,9 +245,9 @@ def _case(res, rng, ident):
             for p in d:  # order of observations must not matter either
                 for op in d[p]:
                     rng.shuffle(d[p][op])
-        return Coverage(g, prof, None, d, None, {})
+        return Coverage(g, prof, None, d, dict(indel_table) if indel_table else None, {})
 
-    desc = {"gene": gname, "genome": genome, "ident": ident, "copies": [list(c) for c in copies],
+    desc = {"gene": gname, "thin_sites": len(thin), "indel_table": sorted(map(str, indel_table)) if indel_table else None, "genome": genome, "ident": ident, "copies": [list(c) for c in copies],
             "min_quality": minq, "min_mapq": minmq, "min_coverage": mincov, "threshold": thr,
             "lowq_observations": n_lq, "lowq_only_variant": str(lowq_only) if lowq_only else None}
     ca, cb = cov_of(False), cov_of(True)
@@ -235,6 +271,10 @@ def _case(res, rng, ident):
     def qualifies(m):
         c = hq.get(m.pos, {}).get(m.op, 0)
         t = total(m.pos)
+        if indel_table and (m.pos, m.op) in indel_table:
+            # the realigner's table is the evidence for this variant: supporting reads out of its own total
+            c = indel_table[m.pos, m.op][1]
+            t = sum(indel_table[m.pos, m.op])
         return c >= max(mincov, t * thr / prof.cn_max) and c >= max(mincov, t * thr / (cn.position_cn(m.pos) + 0.5))
 
     for s in mb:
